@@ -5,7 +5,8 @@
   Input lines (stdin), see harness/c11.cpp:
     T <self> <alloc> <nz> <p..> <nep> <z..> | <iteration order of every zone's endpoints>
     R <conn> <client> <fromzone> <objzone> <kind> <log> | s=<eps> k=<eps> p=<0|1> oz=<zone|-> ts=<0|1> old=<n> bad=<n>
-    D <conn> <from> <originzone> <objzone> <kind> | a=<0|1> s=<eps> p=<0|1> oz=<zone|-> ts=<0|1> old=<n> bad=<n>
+    D <conn> <from> <originzone> <objzone> <kind> | a=<0|1> s=<eps> p=<0|1> oz=<zone|-> ts=<0|1> old=<n> bad=<n> m=<ep>
+    M <a> <b> <conn of a> <conn of b> | ma=<ep> mb=<ep>      both identities asked for their zone master (`specMasterPair`)
         one network step through the real MessageHandler; compared with the model's `deliver` (originOf, accept, relay)
   Output lines:
     MISMATCH line=<n> case=<k> op=<sent|skipped|persist|originzone|ts|old|bad|order> impl=<..> model=<..>
@@ -34,14 +35,15 @@ structure TopoTxt where
   globals : Array Bool
   zoneOf : Array Zone
   order : Array (List Ep)
+  allParents : Array (List Zone) := #[]
 
-def TopoTxt.topo (t : TopoTxt) (conn : Ep → Ep → Bool) : Topo :=
+def TopoTxt.topo (t : TopoTxt) (conn : Ep → Ep → Bool) (syncing : Ep → Ep → Bool := fun _ _ => false) : Topo :=
   { parent := fun z => match t.parents[z]? with | some p => p | none => none,
     isGlobal := fun z => match t.globals[z]? with | some g => g | none => false,
     zones := List.range t.parents.size,
     zoneOf := fun e => match t.zoneOf[e]? with | some z => z | none => t.parents.size,
     eps := fun _ z => match t.order[z]? with | some l => l | none => [],
-    conn := conn }
+    conn := conn, syncing := syncing }
 
 def parseList (s : String) : Option (List Nat) :=
   if s == "-" then some [] else (s.splitOn ",").mapM parseNat?
@@ -72,10 +74,13 @@ def parseTopo (pre post : List String) : Option TopoTxt := do
       else (parseNat? p).map (fun v => (some v, false)))
     let nep ← parseNat? (rest.getD nz "")
     let zs ← (rest.drop (nz + 1)).mapM parseNat?
-    if zs.length != nep || post.length != nz then none
-    let order ← post.mapM parseList
+    let orderToks := post.takeWhile (· ≠ ";")
+    let parentToks := (post.dropWhile (· ≠ ";")).drop 1
+    if zs.length != nep || orderToks.length != nz || (!parentToks.isEmpty && parentToks.length != nz) then none
+    let order ← orderToks.mapM parseList
+    let aps ← parentToks.mapM parseList
     pure { self := self, parents := (entries.map (·.1)).toArray, globals := (entries.map (·.2)).toArray,
-           zoneOf := zs.toArray, order := order.toArray }
+           zoneOf := zs.toArray, order := order.toArray, allParents := aps.toArray }
   | _ => none
 
 /-- the order the implementation reported must be an arrangement of exactly the configured members -/
@@ -98,6 +103,9 @@ def allOrders (t : TopoTxt) : List (Array (List Ep)) :=
   let step := fun (acc : List (Array (List Ep))) (l : List Ep) =>
     ((perms l).flatMap (fun p => acc.map (fun a => a.push p))).take 20000
   t.order.toList.foldl step [#[]]
+
+def isConnCh (c : Char) : Bool := c == '1' || c == '2' || c == 's' || c == 't'
+def isSyncCh (c : Char) : Bool := c == 's' || c == 't'
 
 def kvOf (ws : List String) (k : String) : Option String :=
   (ws.find? (fun w => w.startsWith (k ++ "="))).map (fun w => (w.drop (k.length + 1)).toString)
@@ -125,6 +133,9 @@ structure DSt where
   masterCases : Nat := 0
   originZoneSet : Nat := 0
   twoConn : Nat := 0
+  parentChains : Nat := 0
+  masterPairs : Nat := 0
+  syncingCases : Nat := 0
   orderFree : Nat := 0           -- cases that agree with the model under another arrangement of the endpoint sets only
   dSteps : Nat := 0
   dAccepted : Nat := 0
@@ -167,6 +178,16 @@ def handle (d : DSt) (n : Nat) (line : String) : IO DSt := do
       if !orderOk t then
         IO.println s!"MISMATCH line={n} case={d.caseNo} op=order impl={" ".intercalate post} model=arrangement-of-members"
         d := { d with mismatches := d.mismatches + 1 }
+      -- Zone::GetAllParents() of every zone against the model's walk along `parent` (zone.cpp:24-46)
+      if !t.allParents.isEmpty then
+        let T0 := t.topo (fun _ _ => false)
+        for z in List.range t.parents.size do
+          let impl := t.allParents.getD z []
+          let model := allParents T0 maxDepth z
+          if impl != model then
+            IO.println s!"MISMATCH line={n} case={d.caseNo} op=all_parents zone={z} impl={showList impl} model={showList model}"
+            d := { d with mismatches := d.mismatches + 1 }
+          d := { d with parentChains := d.parentChains + 1 }
       return d
     | none => IO.println s!"BADLINE line={n}"; return d
   | "R" :: rest =>
@@ -187,19 +208,21 @@ def handle (d : DSt) (n : Nat) (line : String) : IO DSt := do
       | some cl, some fz, some oz, some log, some sent, some skipped, some persist, some obsOz, some ts, some old, some bad =>
         if connA.size != t.zoneOf.size then
           IO.println s!"BADLINE line={n}"; return d
-        let T := t.topo (fun _ e => match connA[e]? with | some c => c == '1' || c == '2' | none => false)
+        let connF := fun (_ : Ep) (e : Ep) => match connA[e]? with | some c => isConnCh c | none => false
+        let syncF := fun (_ : Ep) (e : Ep) => match connA[e]? with | some c => isSyncCh c | none => false
+        let T := t.topo connF syncF
         let self := t.self
+        let obsMaster : Option Ep := (kvOf post "m").bind parseNat?
         let o : Origin := ⟨cl, fz⟩
         let c : Case := ⟨self, o, oz, log⟩
         let r := relay T self o oz log
         let mut d := { d with steps := d.steps + 1 }
-        let mSent := sortNat r.sent
+        let mSent := sortNat (queued T self r)
         let mSkipped := sortNat r.skipped
-        let connF := fun (_ : Ep) (e : Ep) => match connA[e]? with | some c => c == '1' || c == '2' | none => false
-        let agrees := fun (r : Result) => sortNat r.sent == sent && sortNat r.skipped == skipped && r.persist == persist && r.originZone == obsOz
-        if !agrees r then
+        let agrees := fun (T : Topo) (r : Result) => sortNat (queued T self r) == sent && sortNat r.skipped == skipped && r.persist == persist && r.originZone == obsOz
+        if !agrees T r then
           -- the model returns the allowed set: some arrangement of the endpoint sets must explain the observation
-          if (allOrders t).any (fun ord => agrees (relay ({ t with order := ord }.topo connF) self o oz log)) then
+          if (allOrders t).any (fun ord => agrees ({ t with order := ord }.topo connF syncF) (relay ({ t with order := ord }.topo connF syncF) self o oz log)) then
             d := { d with orderFree := d.orderFree + 1 }
           else
             if mSent != sent then
@@ -220,11 +243,15 @@ def handle (d : DSt) (n : Nat) (line : String) : IO DSt := do
         if old != "0" then
           IO.println s!"MISMATCH line={n} case={d.caseNo} op=old impl={old} model=0"
           d := { d with mismatches := d.mismatches + 1 }
+        if obsMaster.isSome && obsMaster != getMaster T self then
+          IO.println s!"MISMATCH line={n} case={d.caseNo} op=master impl={showOpt obsMaster} model={showOpt (getMaster T self)}"
+          d := { d with mismatches := d.mismatches + 1 }
+        if connA.any isSyncCh then d := { d with syncingCases := d.syncingCases + 1 }
         if bad != "0" then
           IO.println s!"MISMATCH line={n} case={d.caseNo} op=bad impl={bad} model=0"
           d := { d with mismatches := d.mismatches + 1 }
         -- the property on the implementation's own observation
-        match specCase maxDepth T c ⟨sent, persist, obsOz⟩ with
+        match specCase maxDepth T c { sent := sent, persist := persist, originZone := obsOz, extraCopies := (parseNat? old).getD 1, master := obsMaster } with
         | some cl =>
           IO.println s!"SPECFAIL line={n} case={d.caseNo} clause={cl.name}"
           d := { d with specfails := d.specfails + 1 }
@@ -244,6 +271,31 @@ def handle (d : DSt) (n : Nat) (line : String) : IO DSt := do
         return d
       | _, _, _, _, _, _, _, _, _, _, _ => IO.println s!"BADLINE line={n}"; return d
     | _, _ => IO.println s!"BADLINE line={n}"; return d
+  | "M" :: rest =>
+    let (pre, post) := splitBar rest
+    match d.topo, pre with
+    | some t, [a, b, ca, cb] =>
+      match parseNat? a, parseNat? b, (kvOf post "ma").bind parseNat?, (kvOf post "mb").bind parseNat? with
+      | some a, some b, some ma, some mb =>
+        let caA := ca.toList.toArray
+        let cbA := cb.toList.toArray
+        if caA.size != t.zoneOf.size || cbA.size != t.zoneOf.size then
+          IO.println s!"BADLINE line={n}"; return d
+        let view := fun (s : Ep) => if s == a then caA else cbA
+        let T := t.topo (fun s e => e != s && (match (view s)[e]? with | some c => isConnCh c | none => false))
+                        (fun s e => e != s && (match (view s)[e]? with | some c => isSyncCh c | none => false))
+        let mut d := { d with masterPairs := d.masterPairs + 1, steps := d.steps + 1 }
+        if getMaster T a != some ma || getMaster T b != some mb then
+          IO.println s!"MISMATCH line={n} case={d.caseNo} op=master-pair impl={ma},{mb} model={showOpt (getMaster T a)},{showOpt (getMaster T b)}"
+          d := { d with mismatches := d.mismatches + 1 }
+        match specMasterPair T a b (some ma) (some mb) with
+        | some cl =>
+          IO.println s!"SPECFAIL line={n} case={d.caseNo} clause={cl.name}"
+          d := { d with specfails := d.specfails + 1 }
+        | none => pure ()
+        return d
+      | _, _, _, _ => IO.println s!"BADLINE line={n}"; return d
+    | _, _ => IO.println s!"BADLINE line={n}"; return d
   | "D" :: rest =>
     let (pre, post) := splitBar rest
     match d.topo, pre with
@@ -259,23 +311,24 @@ def handle (d : DSt) (n : Nat) (line : String) : IO DSt := do
       | some frm, some ozf, some oz, some acc, some sent, some persist, some obsOz, some ts, some old, some bad =>
         if connA.size != t.zoneOf.size then
           IO.println s!"BADLINE line={n}"; return d
-        let T := t.topo (fun _ e => match connA[e]? with | some c => c == '1' || c == '2' | none => false)
+        let connF := fun (_ : Ep) (e : Ep) => match connA[e]? with | some c => isConnCh c | none => false
+        let syncF := fun (_ : Ep) (e : Ep) => match connA[e]? with | some c => isSyncCh c | none => false
+        let T := t.topo connF syncF
         let self := t.self
+        let obsMaster : Option Ep := (kvOf post "m").bind parseNat?
         let msg : Msg := ⟨self, frm, ozf⟩
         -- the model's `deliver` on a network whose only in-flight message is `msg`
         let net : Net := { inflight := [msg], processed := [], accepted := [], persisted := [], discarded := [] }
-        let connF := fun (_ : Ep) (e : Ep) => match connA[e]? with | some c => c == '1' || c == '2' | none => false
         let outcome := fun (T : Topo) =>
           let net' := deliver T oz net 0
           let mAcc := net'.processed.length
-          let mOz : Option Zone := match net'.inflight with
-            | m' :: _ => m'.originZone
-            | [] => (if mAcc == 1 then (originOf T msg).fromZone else none)
-          (mAcc, sortNat (net'.inflight.map (·.to)), !net'.persisted.isEmpty, mOz)
+          let mOz : Option Zone := if mAcc == 1 then (originOf T msg).fromZone else none
+          -- what is actually queued: SyncSendMessage leaves out the endpoints that are `syncing`
+          (mAcc, sortNat ((net'.inflight.map (·.to)).filter (fun e => !T.syncing self e)), !net'.persisted.isEmpty, mOz)
         let (mAcc, mSent, mPersist, mOz) := outcome T
         let mut d := { d with dSteps := d.dSteps + 1, steps := d.steps + 1 }
         if (mAcc, mSent, mPersist, mOz) != (acc, sent, persist, obsOz) then
-          if (allOrders t).any (fun ord => outcome ({ t with order := ord }.topo connF) == (acc, sent, persist, obsOz)) then
+          if (allOrders t).any (fun ord => outcome ({ t with order := ord }.topo connF syncF) == (acc, sent, persist, obsOz)) then
             d := { d with orderFree := d.orderFree + 1 }
           else
             if mAcc != acc then
@@ -293,6 +346,18 @@ def handle (d : DSt) (n : Nat) (line : String) : IO DSt := do
         if ts != "1" || old != "0" || bad != "0" then
           IO.println s!"MISMATCH line={n} case={d.caseNo} op=step-queue impl=ts:{ts},old:{old},bad:{bad} model=ts:1,old:0,bad:0"
           d := { d with mismatches := d.mismatches + 1 }
+        if obsMaster.isSome && obsMaster != getMaster T self then
+          IO.println s!"MISMATCH line={n} case={d.caseNo} op=master impl={showOpt obsMaster} model={showOpt (getMaster T self)}"
+          d := { d with mismatches := d.mismatches + 1 }
+        if connA.any isSyncCh then d := { d with syncingCases := d.syncingCases + 1 }
+        -- the per-node sentences on the re-relay of an accepted event (origin as the real MessageHandler computed it)
+        if acc == 1 then
+          match specCase maxDepth T ⟨self, originOf T msg, some oz, true⟩
+              { sent := sent, persist := persist, originZone := obsOz, extraCopies := (parseNat? old).getD 1, master := obsMaster } with
+          | some cl =>
+            IO.println s!"SPECFAIL line={n} case={d.caseNo} clause={cl.name}"
+            d := { d with specfails := d.specfails + 1 }
+          | none => pure ()
         -- the cluster-wide sentences on this step: an accepted event is never handed back to the sender or its zone
         if acc == 1 && sent.any (fun e => e == frm || (T.zoneOf frm != T.zoneOf self && T.zoneOf e == T.zoneOf frm)) then
           IO.println s!"SPECFAIL line={n} case={d.caseNo} clause=second_hop_no_echo"
@@ -409,4 +474,4 @@ def main (args : List String) : IO Unit := do
     IO.println s!"SIMSTATS topologies={st.topos} runs={st.runs} deliveries={st.deliveries} fails={st.fails} complete_checked={st.complete} incomplete={st.incomplete} beyond_scope_topologies={st.beyondScope} beyond_scope_duplicates={st.beyondScopeDups} max_processed={st.maxProcessed} nontrivial={st.nontrivial}"
   | _ =>
     let d ← foldLines stdin handle ({} : DSt)
-    IO.println s!"STATS cases={d.caseNo} steps={d.steps} nontrivial={d.nontrivial} sends={d.sends} skips={d.skips} persisted={d.persisted} no_target={d.noTarget} b_self={d.bSelf} b_disconnected={d.bDisc} b_second_endpoint={d.bRelayed} b_origin_client={d.bClient} b_origin_zone={d.bFromZone} b_not_master={d.bMaster} b_sent={d.bSent} unrelated_zone={d.unrelated} global_object={d.globalObj} as_master={d.masterCases} origin_zone_set={d.originZoneSet} newest_of_two={d.twoConn} net_steps={d.dSteps} net_accepted={d.dAccepted} net_discarded={d.dDiscarded} net_origin_from_field={d.dOriginFromField} order_free={d.orderFree} mismatches={d.mismatches} specfails={d.specfails}"
+    IO.println s!"STATS cases={d.caseNo} steps={d.steps} nontrivial={d.nontrivial} sends={d.sends} skips={d.skips} persisted={d.persisted} no_target={d.noTarget} b_self={d.bSelf} b_disconnected={d.bDisc} b_second_endpoint={d.bRelayed} b_origin_client={d.bClient} b_origin_zone={d.bFromZone} b_not_master={d.bMaster} b_sent={d.bSent} unrelated_zone={d.unrelated} global_object={d.globalObj} as_master={d.masterCases} origin_zone_set={d.originZoneSet} newest_of_two={d.twoConn} net_steps={d.dSteps} net_accepted={d.dAccepted} net_discarded={d.dDiscarded} net_origin_from_field={d.dOriginFromField} order_free={d.orderFree} syncing_cases={d.syncingCases} master_pairs={d.masterPairs} parent_chains={d.parentChains} mismatches={d.mismatches} specfails={d.specfails}"
